@@ -331,7 +331,15 @@ func genProgram(r *hk.Rand) *program {
 			}
 		}
 	}
-	if sh.BodyKind != "multipart" && !p.unreplayable() && !mut && r.Chance(25) {
+	replayableUpload := true // SetFileBytes, SetFile, SetFileReader with a reader that can be rewound
+	for _, f := range sh.MPFiles {
+		switch f.Kind {
+		case "bytes", "path", "seekcloser", "reader":
+		default:
+			replayableUpload = false
+		}
+	}
+	if (sh.BodyKind != "multipart" || replayableUpload) && !p.unreplayable() && !mut && r.Chance(25) {
 		for i, n := 0, r.Range(1, 2); i < n; i++ {
 			re := reexecSpec{Via: hk.Pick(r, []string{"send", "do", "doplain"})}
 			for j, d := 0, r.Range(0, 4); j < d; j++ {
